@@ -26,11 +26,11 @@ def fingerprint(circuit):
     return hashlib.sha1(json.dumps(wires, sort_keys=True).encode()).hexdigest()[:16]
 
 
-def make_compiler(name):
+def make_compiler(name, md=1):
     from graphiq.backends.stabilizer.compiler import StabilizerCompiler
     from graphiq.backends.density_matrix.compiler import DensityMatrixCompiler
     c = StabilizerCompiler() if name == "stabilizer" else DensityMatrixCompiler()
-    c.measurement_determinism = 1
+    c.measurement_determinism = md          # forced outcomes (1 or 0): scores are then a function of the circuit alone
     return c
 
 
@@ -46,7 +46,7 @@ def target_of(cfg):
 def rescore(cfg, circuit, n_photon, n_emitter):
     from graphiq.metrics import Infidelity
     _, target = target_of(cfg)
-    comp = make_compiler(cfg["compiler"])
+    comp = make_compiler(cfg["compiler"], cfg.get("md", 1))
     st = comp.compile(circuit.copy())
     st.partial_trace(keep=list(range(n_photon)), dims=(n_photon + n_emitter) * [2])
     return Infidelity(target).evaluate(st, circuit)
@@ -77,7 +77,7 @@ def run(cfg, full=True):
     setting = EvolutionarySolverSetting(n_hof=cfg["n_hof"], n_stop=cfg["n_stop"], n_pop=cfg["n_pop"],
                                         tournament_k=cfg["k"], selection_active=cfg["selection"],
                                         use_adapt_probability=cfg["adapt"])
-    comp = make_compiler(cfg["compiler"])
+    comp = make_compiler(cfg["compiler"], cfg.get("md", 1))
     events = []
     if cfg["solver"] == "evolutionary":
         base = EvolutionarySolver
